@@ -1,5 +1,90 @@
-"""C10 - Framebuffer reads back what was written, in the layout of ImageRaw  (metadata; generators live here and/or in props/C10_*.py parts)"""
-CLAIMED = False   # set True by the owner once ./check C10 passes with real theorems
+"""C10 - Framebuffer reads back what was written, in the layout of ImageRaw."""
+from common import *
+
+CLAIMED = False
 LEVEL = 'proof'
 LEVEL_TEXT = 'TODO'
 LEVEL_NOTE = 'TODO'
+RULE = 'TODO'
+TRUSTED = []
+ASSUMPTIONS = []
+PARTIAL = []
+EXHAUSTIVE = {'quick': False, 'thorough': False}
+
+BPPS = [1, 2, 4, 8, 16, 24, 32]
+# (W, H, extra bytes): the framebuffer types instantiated in harness/src/suites/c10.rs (const generics):
+# rows that end on a byte boundary for some depths and not for others, oversized buffers, zero-sized
+SIZES = [(1, 1, 0), (3, 2, 0), (3, 2, 3), (7, 3, 0), (8, 2, 0), (9, 2, 0), (9, 2, 5), (13, 5, 0), (13, 5, 1),
+         (16, 1, 0), (17, 3, 0), (0, 2, 0), (3, 0, 2)]
+
+
+def coord(rng, m):
+    k = rng.random()
+    if k < 0.08:
+        return -1
+    if k < 0.16:
+        return m
+    if k < 0.24:
+        return m - 1
+    if k < 0.30:
+        return 0
+    if k < 0.36:
+        return rng.choice([-2 ** 31, 2 ** 31 - 1, -70000, 70000, 256, -256, 2 ** 16, 2 ** 24 + 3])
+    return rng.randrange(0, m + 1)
+
+
+def value(rng, bpp):
+    m = 2 ** bpp - 1
+    k = rng.random()
+    if k < 0.15:
+        return 0
+    if k < 0.3:
+        return m
+    if k < 0.4:
+        return 0x12345678 & m
+    return rng.randrange(m + 1)
+
+
+def op(rng, bpp, w, h):
+    k = rng.random()
+    if k < 0.55:
+        return 'S:%d:%d:%d' % (coord(rng, w), coord(rng, h), value(rng, bpp))
+    if k < 0.8:
+        n = rng.randrange(0, 6)
+        return 'D:' + ';'.join('%d:%d:%d' % (coord(rng, w), coord(rng, h), value(rng, bpp)) for _ in range(n))
+    if k < 0.95:
+        return 'F:%d:%d:%d:%d:%d' % (rng.randrange(-3, w + 2), rng.randrange(-3, h + 2), rng.randrange(0, w + 3), rng.randrange(0, h + 3), value(rng, bpp))
+    return 'C:%d' % value(rng, bpp)
+
+
+def bg(rng):
+    return rng.choice([(0, 0), (0, 0), (0, 255), (1, 0), (37, 11), (rng.randrange(256), rng.randrange(256))])
+
+
+def cases(tier, rng):
+    reps = 3 if tier == 'quick' else 20
+    for bpp in BPPS:
+        for alt in (0, 1):
+            for (w, h, e) in SIZES:
+                # every pixel set alone on a zero and on a patterned background
+                for (a, b) in ((0, 0), (37, 11)):
+                    yield J('fb_img', bpp, alt, w, h, e, a, b)
+                    for y in range(h):
+                        for x in range(w):
+                            if tier != 'quick' or (x + y * w) % 3 == 0 or x == w - 1:
+                                yield J('fb_hist', bpp, alt, w, h, e, a, b, 'S:%d:%d:%d' % (x, y, value(rng, bpp)))
+                for _ in range(reps):
+                    a, b = bg(rng)
+                    yield J('fb_hist', bpp, alt, w, h, e, a, b, *[op(rng, bpp, w, h) for _ in range(rng.randrange(0, 12))])
+                    a, b = bg(rng)
+                    yield J('fb_img', bpp, alt, w, h, e, a, b)
+
+
+def search(tier, rng):
+    reps = 2 if tier == 'quick' else 12
+    for bpp in BPPS:
+        for alt in (0, 1):
+            for (w, h, e) in SIZES:
+                yield J('p_fb_each', bpp, alt, w, h, e, rng.randrange(2 ** 32))
+                for r in range(reps):
+                    yield J('p_fb_hist', bpp, alt, w, h, e, rng.randrange(2 ** 32), 12 if tier == 'quick' else 30, r % 2)
